@@ -232,8 +232,8 @@ pub fn exec(song: &mut Song, tokens: &Vec<Token>) -> bool {
             },
             TokenType::RPN => exec_cc_rpn_nrpn_direct(song, t, 101, 100, 6),
             TokenType::RPNCommand => exec_cc_rpn_nrpn(song, t, 101, 100, 6),
-            TokenType::NRPN => exec_cc_rpn_nrpn_direct(song, t, 99, 98, 0),
-            TokenType::NRPNCommand => exec_cc_rpn_nrpn(song, t, 99, 98, 0),
+            TokenType::NRPN => exec_cc_rpn_nrpn_direct(song, t, 99, 98, 6),
+            TokenType::NRPNCommand => exec_cc_rpn_nrpn(song, t, 99, 98, 6),
             TokenType::PitchBend => {
                 let val = var_extract(&t.data[0], song).to_i();
                 let val = if t.value_i == 0 { val * 128 } else { val + 8192 };
